@@ -119,12 +119,36 @@ class EmptyKindError(Exception):
     error_kind = ""
 
 
+class Store:
+    """an exception class nested in another class: __name__ 'NotFound', __qualname__ 'Store.NotFound'"""
+
+    class NotFound(Exception):
+        pass
+
+    class Inner:
+        class Deep(Exception):
+            error_kind = "deep_kind"
+
+
+def _make_local() -> type[BaseException]:
+    class LocalError(Exception):
+        """defined inside a function: __qualname__ '_make_local.<locals>.LocalError'"""
+
+    return LocalError
+
+
+LocalError = _make_local()
+DynamicError = type("DynamicError", (Exception,), {"__qualname__": "factory.<dynamic>.DynamicError"})
+
+
 # classes the framework's own control flow also uses (client disconnects, end of stream, IPC errors): raised by an
 # implementation they are implementation errors like any other
 CONTROL_FLOW_CLASSES = ["BrokenPipeError", "ConnectionResetError", "ConnectionAbortedError", "ConnectionRefusedError", "OSError", "EOFError",
                         "StopIteration", "StopAsyncIteration", "TimeoutError", "ArrowInvalid", "InterruptedError", "BlockingIOError"]
 
 EXTRA_CLASSES: dict[str, type[BaseException]] = {
+    # the client must see the class NAME (not the qualified name) of nested / function-local / dynamically built classes
+    "Store.NotFound": Store.NotFound, "Store.Inner.Deep": Store.Inner.Deep, "LocalError": LocalError, "DynamicError": DynamicError,
     "ConnectionAbortedError": ConnectionAbortedError, "ConnectionRefusedError": ConnectionRefusedError, "StopAsyncIteration": StopAsyncIteration,
     "InterruptedError": InterruptedError, "BlockingIOError": BlockingIOError,
     "OddKindError": OddKindError, "BytesKindError": BytesKindError, "NoneKindError": NoneKindError,
@@ -839,6 +863,8 @@ def configs() -> list[Config]:
 def corpus_excs() -> list[list[dict[str, Any]]]:
     X = lambda c, a: {"cls": c, "arg": a}  # noqa: E731
     return [
+        [X("Store.NotFound", "nested"), X("LocalError", "local"), X("Store.Inner.Deep", "deep"), X("DynamicError", "dyn"), X("Store.NotFound", ""),
+         X("LocalError", "ü"), X("Store.Inner.Deep", "d2"), X("DynamicError", "x")],
         [X("ValueError", "boom"), X("KindedError", ""), X("MethodNotImplementedError", "no such method"), X("SessionLostError", "gone\nline2"),
          X("ServerDrainingError", "ü drain"), X("ProtocolVersionError", "nul\x00x"), X("OddKindError", "odd"), X("CustomError", "x" * 100_000)],
         [X("KeyError", "k"), X("BytesKindError", "b"), X("NoneKindError", ""), X("InstanceKindError", "inst"), X("SubKinded", "sub"),
